@@ -8,6 +8,9 @@ RULE = ('exhaustive in both tiers: setup outcome (ok + 7 exception kinds incl. a
         'StopAsyncIteration, RuntimeError, CancelledError) x {sync, async} x {single, nested x2 (enumerated manager inside / outside, '
         'outer cleanup ok / failing), repeated x2 (enumerated manager first / second)}; decoration: every function kind (generator, '
         'async generator, plain, coroutine; def/lambda/partial/method/builtin/class/callable instance) x both decorators; plus seeded '
+        'wrappers as decoration targets (every kind of function carrying functools.wraps of every kind, two layers, partials / callable instances / '
+        'hand-set __wrapped__: what counts is the kind of the object handed in); FALSY exception instances (classes defining __len__ -> 0 or '
+        '__bool__ -> False, Exception and BaseException subclasses) are part of the outcome alphabet of setup / block / cleanup; '
         'random programs of depth <= 4 and length <= 4 (managers drawn from a small pool, so that the same decorated manager is nested '
         'in itself and reused).  Same manager nested in itself: depth 2 (enumerated manager inside / outside) and depth 3.  '
         'Argument forwarding: 9 generator signatures (parameters named f, func, fn, args, kwargs, self, gen, iterator, wrapped, cls, '
@@ -41,6 +44,21 @@ KIND_CLASSES = {
     'runtimeError': ['RuntimeError', 'NotImplementedError', 'RecursionError'],
     'cancelled': ['CancelledError'],
 }
+# exception objects that are FALSY (a class defining __len__ returning 0 - an empty "error collection" - or __bool__ returning False):
+# alphabet entries `<kind>!` are the kind with a class drawn from here; on the wire (and for the Lean model, which never consults the
+# truth value of an exception object - nor do contextlib and the translated wrapper shape) they are ordinary objects of that kind
+FALSY_CLASSES = {'exception': ['EmptyErrors', 'FalsyExc'], 'baseExc': ['FalsyBase', 'EmptyBaseErrors']}
+FALSY = ['exception!', 'baseExc!']
+ALPHA = KINDS + FALSY       # the outcome alphabet of setup / block / cleanup
+
+
+def split_kind(kind):
+    """'exception!' -> ('exception', classes to draw from)"""
+    if kind.endswith('!'):
+        return kind[:-1], FALSY_CLASSES[kind[:-1]]
+    return kind, KIND_CLASSES[kind]
+
+
 VAL0 = 40           # value object of manager `tag` has id VAL0 + tag
 ARGS = 5            # id of the caller's argument objects
 CONV = 500          # ids >= CONV: objects created by the interpreter (PEP 479 RuntimeError for a user-level Stop*Iteration: CONV + its id)
@@ -122,14 +140,18 @@ def converted(mode, kind):
 
 
 def mk_exc(rng, kind, oid, cause=None):
-    return [kind, oid, cause, rng.choice(KIND_CLASSES[kind])]
+    kind, classes = split_kind(kind)
+    # ordinary draws include the falsy classes now and then as well
+    if kind in FALSY_CLASSES and classes is KIND_CLASSES[kind] and rng.random() < 0.15:
+        classes = FALSY_CLASSES[kind]
+    return [kind, oid, cause, rng.choice(classes)]
 
 
 def gen_exc(rng, mode, kind, oid):
     """exception leaving the *user generator*: user code raising Stop(Async)Iteration surfaces as a RuntimeError chained to it"""
     if kind is None:
         return None
-    if converted(mode, kind):
+    if converted(mode, split_kind(kind)[0]):
         return ['runtimeError', CONV + oid, oid, 'user:' + rng.choice(KIND_CLASSES[kind])]
     return mk_exc(rng, kind, oid)
 
@@ -164,9 +186,9 @@ def leaf(rng, n, body, oid):
     return ['body', n, ['raises', e]], e
 
 
-BODIES = ['normal', 'ret', 'brk'] + KINDS
-SETUPS = [None] + KINDS
-CLEANUPS = [None] + KINDS + ['same', 'chained']
+BODIES = ['normal', 'ret', 'brk'] + ALPHA
+SETUPS = [None] + ALPHA
+CLEANUPS = [None] + ALPHA + ['same', 'chained']
 STRUCTS = ['single', 'nest-in', 'nest-in-outerfails', 'nest-out', 'rep-first', 'rep-second',
            # the SAME decorated manager object used twice: nested in itself (enumerated use inside / outside), one after the other
            'self-in', 'self-in-outerfails', 'self-out', 'self-rep-first', 'self-rep-second']
@@ -195,8 +217,10 @@ def build(rng, mode, struct, setup, yields, cleanup, body):
         p = ['seq', ['with', ok_gen(rng, mode, 2, mgr=mgr), ARGS, ['body', 1, ['normal']]], ['with', g, ARGS, lf]]
     branch = ('setupfail' if setup else 'y0' if yields == 0 else 'y2' if yields == 2 else
               ('quirk?' if isinstance(cleanup, tuple) and cleanup[0] == 'chained' else 'same' if isinstance(cleanup, tuple) else
-               ('both' if cleanup and body in KINDS else 'cleanupexc' if cleanup else
-                'early' if body in ('ret', 'brk') else 'bodyexc' if body in KINDS else 'allok')))
+               ('both' if cleanup and body in ALPHA else 'cleanupexc' if cleanup else
+                'early' if body in ('ret', 'brk') else 'bodyexc' if body in ALPHA else 'allok')))
+    if any(isinstance(z, str) and z.endswith('!') for z in (setup, body, cleanup if not isinstance(cleanup, tuple) else None)):
+        branch += '-falsy'
     return {'m': 'ctxmgr', 'c': {'kind': 'prog', 'mode': mode, 'prog': p},
             'x': {'tag': f'{mode}/{struct}/{branch}', 'trivial': branch == 'allok'}}
 
@@ -209,14 +233,14 @@ def rand_prog(rng, mode, depth, counter):
     r = rng.random()
     if depth == 0 or r < 0.25:
         n = fresh()
-        body = rng.choice(['normal'] * 4 + ['ret', 'brk'] + KINDS)
+        body = rng.choice(['normal'] * 4 + ['ret', 'brk'] + ALPHA)
         return leaf(rng, n, body, 100 + n)[0]
     if r < 0.45:
         return ['seq', rand_prog(rng, mode, depth - 1, counter), rand_prog(rng, mode, depth - 1, counter)]
     t = fresh()
     mgr = rng.choice([None, 'A', 'A', 'B'])          # the same decorated manager object nested in itself / reused
-    g = mk_gen(rng, mode, t, rng.choice([None] * 8 + KINDS), rng.choice([1] * 10 + [0, 2]),
-               rng.choice([None] * 5 + KINDS), 200 + 3 * t, mgr)
+    g = mk_gen(rng, mode, t, rng.choice([None] * 8 + ALPHA), rng.choice([1] * 10 + [0, 2]),
+               rng.choice([None] * 5 + ALPHA), 200 + 3 * t, mgr)
     return ['with', g, ARGS, rand_prog(rng, mode, depth - 1, counter)]
 
 
@@ -231,12 +255,25 @@ FN_VARIANTS = [  # (label, inspect kind, has __name__)
 ]
 
 
+WRAP_KINDS = ['generator', 'asyncGenerator', 'plain', 'coroutine']
+# decoration targets that are WRAPPERS: (label, kind of the object handed in, kind of inspect.unwrap(it), has __name__).
+# `wrap:<outer>:<inner>`: a function of kind <outer> carrying functools.wraps(<a function of kind inner>); what counts is <outer>.
+WRAPPED_VARIANTS = [(f'wrap:{o}:{i}', o, i, True) for o in WRAP_KINDS for i in WRAP_KINDS] + [
+    (f'wrap2:{o}:{i}', o, i, True) for o, i in (('plain', 'generator'), ('coroutine', 'asyncGenerator'), ('generator', 'plain'), ('asyncGenerator', 'coroutine'))
+] + [(f'partial_wrapped:{i}', 'plain', i, True) for i in WRAP_KINDS] + [(f'instance_wrapped:{i}', 'plain', i, True) for i in WRAP_KINDS] + [
+    (f'gen_partial_wrapped:{i}', 'generator', i, True) for i in ('plain', 'asyncGenerator')] + [
+    ('attr_only:generator', 'plain', 'generator', True), ('attr_only:asyncGenerator', 'plain', 'asyncGenerator', True)]
+
+
 def deco_cases():
     out = []
     for mode in ('sync', 'async'):
         for label, kind, has_name in FN_VARIANTS:
             out.append({'m': 'ctxmgr', 'c': {'kind': 'deco', 'mode': mode, 'fn': kind, 'hasName': has_name, 'variant': label},
                         'x': {'tag': f'{mode}/deco/{kind}', 'trivial': False}})
+        for label, kind, ukind, has_name in WRAPPED_VARIANTS:
+            out.append({'m': 'ctxmgr', 'c': {'kind': 'deco', 'mode': mode, 'fn': kind, 'unwrapped': ukind, 'hasName': has_name, 'variant': label},
+                        'x': {'tag': f'{mode}/deco-wrapper/{kind}-around-{ukind}', 'trivial': False}})
     return out
 
 
@@ -279,7 +316,7 @@ def selfnest3_cases(rng, tier):
                      ['with', mk_gen(rng, mode, 2, None, 1, c2, 20, 'M'), ARGS,
                       ['with', mk_gen(rng, mode, 3, None, 1, c3, 30, 'M'), ARGS, lf]]]
                 out.append({'m': 'ctxmgr', 'c': {'kind': 'prog', 'mode': mode, 'prog': p}, 'x': {'tag': f'{mode}/self-nest3', 'trivial': False}})
-        for setup in KINDS:          # the innermost / the middle use fails to enter
+        for setup in ALPHA:          # the innermost / the middle use fails to enter
             for where in (2, 3):
                 p = ['with', mk_gen(rng, mode, 1, None, 1, None, 10, 'M'), ARGS,
                      ['with', mk_gen(rng, mode, 2, setup if where == 2 else None, 1, None, 20, 'M'), ARGS,
@@ -339,8 +376,8 @@ def hist_gen(rng, mode, i, setup, yields, cleanup, body, sig=None):
 
 def hist_cases(rng, tier):
     out = []
-    cl2 = [None, 'exception', 'baseExc', 'stopIteration'] if tier == 'thorough' else [None, 'exception', 'baseExc']
-    bd2 = BODIES if tier == 'thorough' else ['normal', 'ret', 'exception', 'baseExc', 'stopIteration', 'generatorExit', 'cancelled']
+    cl2 = [None, 'exception', 'baseExc', 'stopIteration', 'exception!', 'baseExc!'] if tier == 'thorough' else [None, 'exception', 'baseExc', 'exception!']
+    bd2 = BODIES if tier == 'thorough' else ['normal', 'ret', 'exception', 'baseExc', 'stopIteration', 'generatorExit', 'cancelled', 'exception!', 'baseExc!']
     for mode in ('sync', 'async'):
         # two uses: every interleaving x cleanup outcomes x block outcomes
         for order in interleavings(2):
@@ -351,8 +388,8 @@ def hist_cases(rng, tier):
                 out.append(mk_hist(rng, mode, order, [g0, g1], [ARGS_D, ARGS_D], [f0, f1], f'{mode}/hist2/{name}'))
             # setup outcomes / undocumented forms / quirk candidates of one use while the other is live
             for who in (0, 1):
-                for setup, yields, cleanup, body in ([(k, 1, None, 'normal') for k in KINDS] + [(None, 0, None, 'normal'), (None, 2, None, 'normal'), (None, 2, 'exception', 'exception')]
-                                                     + [(None, 1, c, b) for c in ('same', 'chained') for b in KINDS]):
+                for setup, yields, cleanup, body in ([(k, 1, None, 'normal') for k in ALPHA] + [(None, 0, None, 'normal'), (None, 2, None, 'normal'), (None, 2, 'exception', 'exception')]
+                                                     + [(None, 1, c, b) for c in ('same', 'chained') for b in ALPHA]):
                     ga, fa = hist_gen(rng, mode, who, setup, yields, cleanup, body)
                     gb, fb = hist_gen(rng, mode, 1 - who, None, 1, None, rng.choice(bd2))
                     gens, fins = ([ga, gb], [fa, fb]) if who == 0 else ([gb, ga], [fb, fa])
@@ -379,8 +416,8 @@ def rand_hists(rng, n, label):
                 order.append(('E', entered)); live.append(entered); entered += 1
             else:
                 order.append(('X', live.pop(rng.randrange(len(live)))))
-        gf = [hist_gen(rng, mode, i, rng.choice([None] * 9 + KINDS), rng.choice([1] * 12 + [0, 2]),
-                       rng.choice([None] * 5 + KINDS + ['same', 'chained']), rng.choice(['normal'] * 3 + ['ret', 'brk'] + KINDS), sig) for i in range(k)]
+        gf = [hist_gen(rng, mode, i, rng.choice([None] * 9 + ALPHA), rng.choice([1] * 12 + [0, 2]),
+                       rng.choice([None] * 5 + ALPHA + ['same', 'chained']), rng.choice(['normal'] * 3 + ['ret', 'brk'] + ALPHA), sig) for i in range(k)]
         out.append(mk_hist(rng, mode, order, [g for g, _ in gf], [rand_args(rng, sig) for _ in range(k)], [f for _, f in gf], f'{mode}/{label}'))
     return out
 
@@ -400,7 +437,7 @@ def cases(rng, tier):
     if tier == 'thorough':
         # nested, both managers enumerated: outer over everything, inner over every cleanup outcome
         for mode in ('sync', 'async'):
-            for setup, yields, cleanup, icleanup, body in itertools.product(SETUPS, (0, 1, 2), [None] + KINDS, [None] + KINDS, BODIES):
+            for setup, yields, cleanup, icleanup, body in itertools.product(SETUPS, (0, 1, 2), [None] + ALPHA, [None] + ALPHA, BODIES):
                 lf, _ = leaf(rng, 0, body, 7)
                 for mgr in (None, 'M'):
                     p = ['with', mk_gen(rng, mode, 1, setup, yields, cleanup, 10, mgr), ARGS, ['with', ok_gen(rng, mode, 2, icleanup, 20, mgr), ARGS, lf]]
@@ -430,9 +467,22 @@ def _classes():
     class MyExc(Exception): pass
     class MyBase(BaseException): pass
     class MyStop(StopIteration): pass
+
+    class EmptyErrors(Exception):            # an (empty) collection of errors: falsy through __len__
+        def __len__(self): return 0
+
+    class FalsyExc(Exception):
+        def __bool__(self): return False
+
+    class FalsyBase(BaseException):
+        def __bool__(self): return False
+
+    class EmptyBaseErrors(BaseException):
+        def __len__(self): return 0
     d = {c.__name__: c for c in (ValueError, KeyError, AssertionError, OSError, KeyboardInterrupt, SystemExit, GeneratorExit, StopIteration,
                                  StopAsyncIteration, RuntimeError, NotImplementedError, RecursionError)}
-    d.update(MyExc=MyExc, MyBase=MyBase, MyStop=MyStop, CancelledError=asyncio.CancelledError)
+    d.update(MyExc=MyExc, MyBase=MyBase, MyStop=MyStop, CancelledError=asyncio.CancelledError, EmptyErrors=EmptyErrors, FalsyExc=FalsyExc,
+             FalsyBase=FalsyBase, EmptyBaseErrors=EmptyBaseErrors)
     return d
 
 
@@ -933,14 +983,54 @@ def fn_variant(label):
     return table[label]
 
 
+def wrapped_variant(label):
+    """callables that carry `__wrapped__` (functools.wraps / update_wrapper): the kind of the object and the kind of what it wraps"""
+    import functools
+    form, *rest = label.split(':')
+
+    def of_kind(kind, name):
+        ns = {}
+        src = {'generator': 'def {n}(*a, **k):\n    yield 1\n', 'asyncGenerator': 'async def {n}(*a, **k):\n    yield 1\n',
+               'plain': 'def {n}(*a, **k):\n    return [1]\n', 'coroutine': 'async def {n}(*a, **k):\n    return [1]\n'}[kind]
+        exec(src.format(n=name), ns)
+        return ns[name]
+
+    class CallPlain:
+        def __call__(self, *a, **k):
+            return [1]
+    if form in ('wrap', 'wrap2'):
+        inner = of_kind(rest[1], 'inner_fn')
+        if form == 'wrap2':          # two wraps-based layers of the outer kind on top of each other
+            inner = functools.wraps(inner)(of_kind(rest[0], 'middle_fn'))
+        return functools.wraps(inner)(of_kind(rest[0], 'outer_fn'))
+    if form == 'partial_wrapped':
+        return functools.update_wrapper(functools.partial(of_kind('plain', 'p_fn')), of_kind(rest[0], 'inner_fn'))
+    if form == 'gen_partial_wrapped':
+        return functools.update_wrapper(functools.partial(of_kind('generator', 'g_fn')), of_kind(rest[0], 'inner_fn'))
+    if form == 'instance_wrapped':
+        return functools.update_wrapper(CallPlain(), of_kind(rest[0], 'inner_fn'))
+    if form == 'attr_only':          # only the attribute, set by hand
+        f = of_kind('plain', 'outer_fn')
+        f.__wrapped__ = of_kind(rest[0], 'inner_fn')
+        return f
+    raise ValueError(label)
+
+
+def inspect_kind(f):
+    import inspect
+    return ('asyncGenerator' if inspect.isasyncgenfunction(f) else 'generator' if inspect.isgeneratorfunction(f)
+            else 'coroutine' if inspect.iscoroutinefunction(f) else 'plain')
+
+
 def run_deco(c, decos):
     import contextlib, inspect, warnings
-    f = fn_variant(c['variant'])
+    f = wrapped_variant(c['variant']) if ':' in c['variant'] else fn_variant(c['variant'])
     # the harness labels must agree with inspect (the trusted classifier)
-    kind = ('asyncGenerator' if inspect.isasyncgenfunction(f) else 'generator' if inspect.isgeneratorfunction(f)
-            else 'coroutine' if inspect.iscoroutinefunction(f) else 'plain')
+    kind = inspect_kind(f)
     if kind != c['fn'] or hasattr(f, '__name__') != c['hasName']:
         raise RuntimeError(f'harness label of {c["variant"]} disagrees with inspect: {kind}')
+    if 'unwrapped' in c and inspect_kind(inspect.unwrap(f)) != c['unwrapped']:
+        raise RuntimeError(f'harness label of {c["variant"]} disagrees with inspect.unwrap: {inspect_kind(inspect.unwrap(f))}')
     try:
         cm = decos[c['mode']](f)
     except BaseException as e:
